@@ -803,6 +803,8 @@ type robs struct {
 	aid    int64
 	cache  int64
 	bytes  bool
+	seq    int // RTP sequence number / transport-wide sequence number of the bytes put into the
+	tcc    int // buffer (-1: does not parse / no such extension)
 }
 
 type result struct {
@@ -837,8 +839,9 @@ type aob struct {
 
 // one retransmission the tapped responder emitted and what reached the transport for it
 type iob struct {
-	q     int
-	calls []int
+	q          int
+	calls      []int
+	refusedFEC bool // only FEC repair packets reached the transport
 }
 
 func errIDs(err error, sent map[int]error) []int64 {
@@ -1084,9 +1087,13 @@ func runCase(in caseIn) (res *result) { //nolint:cyclop,gocyclo,gocognit,maintid
 		for id, q := range taps {
 			q := q
 			o := iob{q: res.tbl.rtp(&q.h, q.payload, c)}
+			o.refusedFEC = len(tr.inj[id]) > 0
 			for _, cl := range tr.inj[id] {
 				cl := cl
 				o.calls = append(o.calls, res.tbl.rtp(&cl.h, cl.payload, c))
+				if !(c.FecSSRC != 0 && cl.h.SSRC == c.FecSSRC && cl.h.PayloadType == c.FecPT) {
+					o.refusedFEC = false
+				}
 			}
 			res.iobs = append(res.iobs, o)
 		}
@@ -1167,7 +1174,7 @@ func runCase(in caseIn) (res *result) { //nolint:cyclop,gocyclo,gocognit,maintid
 			}
 			snap := append([]byte{}, buf...)
 			n, attr, rerr := rd.Read(buf, ain)
-			o := robs{n: n, errs: errIDs(rerr, b.sentinels), bytes: true, rawLen: int64(len(raw))}
+			o := robs{n: n, errs: errIDs(rerr, b.sentinels), bytes: true, rawLen: int64(len(raw)), seq: -1, tcc: -1}
 			m := len(raw)
 			if !bytes.Equal(buf[:m], raw) || !bytes.Equal(buf[m:], snap[m:]) {
 				o.bytes = false
@@ -1196,6 +1203,10 @@ func runCase(in caseIn) (res *result) { //nolint:cyclop,gocyclo,gocognit,maintid
 				var hh rtp.Header
 				if _, perr := hh.Unmarshal(raw); perr == nil {
 					o.di = res.tbl.add(cq.T(hdrTerm(&hh), cq.T("0", "0")))
+					o.seq = int(hh.SequenceNumber)
+					if x := hh.GetExtension(uint8(c.TwccID)); c.TwccID != 0 && len(x) >= 2 { //nolint:gosec
+						o.tcc = int(x[0])<<8 | int(x[1])
+					}
 				}
 			}
 			switch op.AMode {
@@ -1329,10 +1340,11 @@ func runCase(in caseIn) (res *result) { //nolint:cyclop,gocyclo,gocognit,maintid
 			res.flags[0]++
 		}
 	}
-	// feedback must never mention the decoy sequence numbers (only put into the buffer by failed reads)
+	// feedback must never report a number that only failed reads carried (decoys left in the buffer)
+	fo := failedOnlyOf(in.Reads, res.rops)
 	for _, pk := range tr.casync {
 		for _, p := range pk {
-			if decoyMentioned(p) {
+			if decoyMentioned(p, fo) {
 				res.flags[1]++
 			}
 		}
@@ -1351,38 +1363,100 @@ func runCase(in caseIn) (res *result) { //nolint:cyclop,gocyclo,gocognit,maintid
 	return res
 }
 
-const decoyLo, decoyHi = 40000, 40999
+// sequence numbers the generator gives to decoy packets (left in the buffer by failed reads)
+const decoyLo = 40000
 
-func inDecoy(s uint16) bool { return s >= decoyLo && s <= decoyHi }
+// numbers (RTP sequence numbers / transport-wide sequence numbers) carried ONLY by packets whose
+// read failed: feedback that reports one of them as received accounts a failed read.  A number a
+// successfully read packet carried as well may of course be reported.
+type failedOnly struct {
+	seq, tcc map[uint16]bool
+}
 
-func decoyMentioned(p rtcp.Packet) bool {
+func failedOnlyOf(reads []readIn, obs []robs) failedOnly {
+	f := failedOnly{seq: map[uint16]bool{}, tcc: map[uint16]bool{}}
+	for i, op := range reads {
+		if op.Err != 0 {
+			if obs[i].seq >= 0 {
+				f.seq[uint16(obs[i].seq)] = true //nolint:gosec
+			}
+			if obs[i].tcc >= 0 {
+				f.tcc[uint16(obs[i].tcc)] = true //nolint:gosec
+			}
+		}
+	}
+	for i, op := range reads {
+		if op.Err == 0 {
+			if obs[i].seq >= 0 {
+				delete(f.seq, uint16(obs[i].seq)) //nolint:gosec
+			}
+			if obs[i].tcc >= 0 {
+				delete(f.tcc, uint16(obs[i].tcc)) //nolint:gosec
+			}
+		}
+	}
+
+	return f
+}
+
+// received transport-wide sequence numbers of one TWCC feedback packet
+func tccReceived(v *rtcp.TransportLayerCC) []uint16 {
+	out := []uint16{}
+	idx := 0
+	put := func(symbol uint16) {
+		if idx < int(v.PacketStatusCount) && symbol != rtcp.TypeTCCPacketNotReceived {
+			out = append(out, v.BaseSequenceNumber+uint16(idx)) //nolint:gosec
+		}
+		idx++
+	}
+	for _, ch := range v.PacketChunks {
+		switch c := ch.(type) {
+		case *rtcp.RunLengthChunk:
+			for k := 0; k < int(c.RunLength); k++ {
+				put(c.PacketStatusSymbol)
+			}
+		case *rtcp.StatusVectorChunk:
+			for _, sym := range c.SymbolList {
+				put(sym)
+			}
+		}
+	}
+
+	return out
+}
+
+func decoyMentioned(p rtcp.Packet, f failedOnly) bool {
 	switch v := p.(type) {
 	case *rtcp.TransportLayerNack:
+		// a NACK lists MISSING numbers: just below a number the generator believes it received
 		for _, np := range v.Nacks {
 			for _, s := range np.PacketList() {
-				if s >= decoyLo-50 && s <= decoyHi {
-					return true
+				for d := uint16(0); d <= 1000; d++ {
+					if f.seq[s+d] {
+						return true
+					}
 				}
 			}
 		}
 	case *rtcp.ReceiverReport:
 		for _, r := range v.Reports {
-			if inDecoy(uint16(r.LastSequenceNumber)) { //nolint:gosec
+			if f.seq[uint16(r.LastSequenceNumber)] { //nolint:gosec
 				return true
 			}
 		}
 	case *rtcp.CCFeedbackReport:
 		for _, rb := range v.ReportBlocks {
 			for k := range rb.MetricBlocks {
-				if rb.MetricBlocks[k].Received && inDecoy(rb.BeginSequence+uint16(k)) { //nolint:gosec
+				if rb.MetricBlocks[k].Received && f.seq[rb.BeginSequence+uint16(k)] { //nolint:gosec
 					return true
 				}
 			}
 		}
 	case *rtcp.TransportLayerCC:
-		// TWCC numbers of decoys are in the decoy range as well
-		if inDecoy(v.BaseSequenceNumber) || inDecoy(v.BaseSequenceNumber+v.PacketStatusCount-1) {
-			return true
+		for _, s := range tccReceived(v) {
+			if f.tcc[s] {
+				return true
+			}
 		}
 	}
 
